@@ -45,9 +45,9 @@ MUTANTS = [
     dict(name='M10_input_kwargs_not_copied', targets=['C07'], file=MGR,
          old="            kwargs = dict(self.ctx.input_kwargs)\n",
          new="            kwargs = self.ctx.input_kwargs\n"),
-    dict(name='M11_duplicate_requests_save_again', targets=['C19'], file=MGR,
-         old="            if is_first_request and not isinstance(result, (Recurrent, BaseException)):\n",
-         new="            if not isinstance(result, (Recurrent, BaseException)):\n"),
+    dict(name='M11_every_request_counts_as_first', targets=['C19', 'C03'], file=MGR,
+         old="        is_first_request = not self._node_storage.exists_processed_node(node_id)\n",
+         new="        is_first_request = True\n"),
     dict(name='M12_no_stop_after_successful_run', targets=['C13'], file=MGR,
          old="        finally:\n            self._stop_coro_tasks(*self._coro_tasks)\n",
          new="        finally:\n            if not self._node_storage.exists_node_result(self.dag.output_node):\n                self._stop_coro_tasks(*self._coro_tasks)\n"),
@@ -63,9 +63,9 @@ MUTANTS = [
     dict(name='M16_unknown_label_takes_first_case', targets=['C09'], file=MGR,
          old="        if selected_branch_label not in branch_nodes:\n            raise SwitchCaseDoesNotExistError(\n                f'The switch {switch_node_id} does not have a case for the label {selected_branch_label!r}',\n            )\n",
          new="        if selected_branch_label not in branch_nodes:\n            selected_branch_label = next(iter(branch_nodes))\n"),
-    dict(name='M17_duplicate_request_does_not_wait', targets=['C03', 'C04'], file=MGR,
-         old="            await self._lock_manager.wait_for_event(node_id)\n\n            return self._node_storage.get_node_result(node_id)\n",
-         new="            return self._node_storage.get_node_result(node_id)\n"),
+    dict(name='M17_no_duplicate_request_guard', targets=['C04'], file=MGR,
+         old="        if self._node_storage.exists_processed_node(node_id):\n            logger.debug('Node %s has been executed. Stop new execution', node_id)\n",
+         new="        if False:\n            logger.debug('Node %s has been executed. Stop new execution', node_id)\n"),
     dict(name='M18_additional_data_on_shared_graph', targets=['C08', 'C07'], file=MGR,
          old="            self._additional_data[start_from_node_id] = node_result.data\n",
          new="            self._additional_data[start_from_node_id] = node_result.data\n            self.dag.__dict__.setdefault('_last_data', {})[start_from_node_id] = node_result.data\n",
